@@ -530,6 +530,19 @@ def rule_tokens(ctx, rep):
                  ("byte b64(AA//) // c", "Byte", "byte " + b64("AA//")), ("byte b64 AA//BB8= // real comment", "Byte", "byte " + b64("AA//BB8=")),
                  ("pushbytes b64 ab//cd== //c", "PushBytes", "pushbytes " + b64("ab//cd==")), ("byte b64 AA // c", "Byte", "byte " + b64("AA")),
                  ("byte b32 AAAQE // c", "Byte", "byte " + b32("AAAQE"))]
+    # every first character of the base64 / base32 alphabets, in the spaced and in the parenthesised spelling
+    B64 = "ABCDEFGHIJKLMNOPQRSTUVWXYZabcdefghijklmnopqrstuvwxyz0123456789+/"
+    B32 = "ABCDEFGHIJKLMNOPQRSTUVWXYZ234567"
+    for c in B64:
+        data = c + "GVs"
+        rows += [(f"byte base64({data})", "Byte", "byte " + b64(data)), (f"byte b64 {data}", "Byte", "byte " + b64(data))]
+    for c in B64[::7]:
+        rows += [(f"byte b64({c}Q==)", "Byte", "byte " + b64(c + "Q==")), (f"pushbytes base64 {c}Q==", "PushBytes", "pushbytes " + b64(c + "Q=="))]
+    for c in B32:
+        data = c + "EBAGBAF"
+        rows += [(f"byte base32({data})", "Byte", "byte " + b32(data)), (f"byte b32 {data}", "Byte", "byte " + b32(data))]
+    for c in B32[::5]:
+        rows += [(f"byte b32({c}A======)", "Byte", "byte " + b32(c + "A======"))]
     for line, cname, printed in rows:
         try:
             o = w.call(pl, line)
